@@ -354,6 +354,22 @@ def make_point(rng, whole=True):
 
 def workload(ctx, repo):
     rng = ctx.rng
+    # Unix times that are whole 400-year cycles (and whole centuries) from
+    # the epoch, printed and read back with %s
+    if ctx.worker == 0:
+        for y in list(range(370, 10000, 400)) + [1870, 2070, 1969, 1971]:
+            for off in ((0, 0), (5, 30), (-8, 0)):
+                inst = R.ymd_to_rd(MODE, y, 1, 1) * 86400
+                kw = gen.tp_from_instant(rng, MODE, inst, offset=off,
+                                         allow_2400=False)
+                if not 0 <= kw["year"] <= 9999:
+                    continue
+                kw.pop("num_expanded_year_digits", None)
+                case = {"op": "epoch", "p": kw, "fmt": "%s",
+                        "assumed": [0, 0]}
+                ctx.case = case
+                ctx.ev("cases.epoch-cycles")
+                run_case(ctx, repo, case)
     n = 8000 if ctx.tier == "quick" else 24000
     for k in range(n):
         v = k % 10
@@ -386,7 +402,8 @@ def workload(ctx, repo):
                     "assumed": list(gen.rand_offset(rng))}
         else:
             letter = rng.choice([c for c in string.ascii_letters
-                                 if c not in SUPPORTED])
+                                 if c not in SUPPORTED] + list(
+                                     "\u00e9\u00df\u03a9\u044f\u00c5"))
             case = {"op": "unsupported", "p": make_point(rng),
                     "fmt": rng.choice(("%" + letter, "%Y-%" + letter,
                                        "x%" + letter + "%d"))}
